@@ -142,6 +142,8 @@ impl Cache {
                 .upsert_proc(proc)
                 .expect("fail to upsert process");
         }
+        #[cfg(feature = "verif")]
+        crate::verif::pause("cache.push_proc");
         self.procs.insert(proc.id().to_string(), proc.clone());
     }
 
